@@ -336,6 +336,86 @@ def anchored_functions(prop_id):
     return out
 
 
+def _gcov_dirs(bdirs, want):
+    """gcov -f over every .gcda in the build directories: {function: (executed, total)} for the wanted functions"""
+    res = {}
+    for bdir in bdirs:
+        if not bdir or not os.path.isdir(bdir):
+            continue
+        for o in sorted(f for f in os.listdir(bdir) if f.endswith(".gcda")):
+            r = subprocess.run(["gcov", "-f", "-o", bdir, os.path.join(bdir, o[:-5] + ".o")], cwd=bdir, capture_output=True, text=True)
+            fn = None
+            for line in r.stdout.split("\n"):
+                m = re.match(r"Function '(\w+)'", line)
+                if m:
+                    fn = m.group(1)
+                    continue
+                m = re.match(r"Lines executed:([\d.]+)% of (\d+)", line)
+                if m and fn:
+                    if fn in want:
+                        tot = int(m.group(2))
+                        ex = int(round(float(m.group(1)) * tot / 100.0))
+                        old = res.get(fn)
+                        if old is None or ex > old[0]:
+                            res[fn] = (ex, tot)
+                    fn = None
+    return res
+
+
+def anchor_coverage_custom(ctx, P, env, cases, max_cases=150):
+    """properties with their own evaluate(): rebuild whatever they use (harness and/or the lha tool) with gcc --coverage, replay a
+    sample of this run's cases through the property's own evaluation, report gcov line coverage of the anchored functions"""
+    want = anchored_functions(P.ID)
+    if not want or not cases:
+        return None
+    env2 = dict(env)
+    bdirs = []
+    if "vh" in env:
+        feats = getattr(P, "COVERAGE_FEATURES", getattr(P, "VH_FEATURES", []))
+        vh, err = build_vh(ctx, feats, extra_flags=["--coverage"], name="vhcov", san_flags=["-O0", "-g"], cc="gcc")
+        if vh is None:
+            return {"error": "coverage build of the harness failed: " + err[-300:]}
+        env2["vh"] = vh
+        bdirs.append(os.path.dirname(vh))
+    if "lha" in env:
+        lha, err = build_lha(ctx, name="lhacov", cc="gcc", san_flags=["-O0", "-g", "--coverage"])
+        if lha is None:
+            return {"error": "coverage build of the tool failed: " + err[-300:]}
+        env2["lha"] = lha
+        bdirs.append(os.path.dirname(lha))
+    for b in bdirs:                      # the tool is also run as an unprivileged user, which must be able to write the .gcda files
+        os.chmod(b, 0o777)
+        for f in os.listdir(b):
+            try:
+                os.chmod(os.path.join(b, f), 0o666 if not os.access(os.path.join(b, f), os.X_OK) else 0o777)
+            except OSError:
+                pass
+    os.umask(0)
+    try:
+        step = max(1, len(cases) // max_cases)
+        sample = cases[::step][:max_cases]
+        ev = getattr(P, "evaluate_own", None) or P.evaluate
+        import collections
+        saved = ctx.dist
+        ctx.dist = collections.Counter()
+        saved_extra = dict(ctx.extra)
+        try:
+            ev(ctx, env2, sample, False)
+        finally:
+            ctx.dist = saved
+            ctx.extra.clear(); ctx.extra.update(saved_extra)
+    finally:
+        os.umask(0o022)
+    res = _gcov_dirs(bdirs, want)
+    rep = {"%s:%s" % (want[f], f): "%d/%d" % res[f] for f in sorted(res)}
+    missing = sorted(f for f in want if f not in res)
+    ex = sum(v[0] for v in res.values())
+    tot = sum(v[1] for v in res.values())
+    return {"functions": rep, "lines_executed": ex, "lines_total": tot, "ops_sampled": len(sample),
+            "not_built": ["%s:%s" % (want[f], f) for f in missing],
+            "never_executed": [k for k, v in rep.items() if v.startswith("0/")]}
+
+
 def anchor_coverage(ctx, prop_id, features, ops, max_ops=600):
     """Build the harness with gcc --coverage (no sanitizers), run (a sample of) the correspondence ops through it and report
     gcov line coverage of the property's anchored functions: {function: "executed/total"} + the never-executed ones."""
@@ -422,13 +502,13 @@ def short(s, n=160):
 # --------------------------------------------------------------------------
 # the command-line tool, built from the working tree
 
-def build_lha(ctx, sanitize=True, name="lha", extra_flags=(), wrap=()):
+def build_lha(ctx, sanitize=True, name="lha", extra_flags=(), wrap=(), cc="clang", san_flags=None):
     """Compile /repo/src/*.c + /repo/lib/*.c into ctx.tmp (TEST_BUILD: TEST_NOW_TIME is honoured).
     `wrap`: libc symbols to interpose with --wrap (the shim source must be given in extra_flags)."""
     bdir = os.path.join(ctx.tmp, name + "-build")
     os.makedirs(bdir, exist_ok=True)
     os.chmod(ctx.tmp, 0o755)          # the tool is also run as an unprivileged user
-    san = SAN_FLAGS if sanitize else ["-O1", "-g"]
+    san = san_flags if san_flags is not None else (SAN_FLAGS if sanitize else ["-O1", "-g"])
     inc = ["-I", REPO, "-I", os.path.join(REPO, "lib"), "-I", os.path.join(REPO, "lib", "public"),
            "-I", os.path.join(REPO, "src"), "-DHAVE_CONFIG_H", "-DTEST_BUILD", "-w"]
     srcs = [os.path.join(REPO, "lib", f) for f in lib_sources()] + \
@@ -437,13 +517,13 @@ def build_lha(ctx, sanitize=True, name="lha", extra_flags=(), wrap=()):
     for s in srcs:
         o = os.path.join(bdir, os.path.basename(os.path.dirname(s)) + "_" + os.path.basename(s)[:-2] + ".o")
         objs.append(o)
-        jobs.append(["clang"] + san + inc + ["-c", s, "-o", o])
+        jobs.append([cc] + san + inc + ["-c", s, "-o", o])
     extra_objs = []
     for x in extra_flags:
         if x.endswith(".c"):
             o = os.path.join(bdir, "x_" + os.path.basename(x)[:-2] + ".o")
             extra_objs.append(o)
-            jobs.append(["clang"] + san + inc + ["-c", x, "-o", o])
+            jobs.append([cc] + san + inc + ["-c", x, "-o", o])
     with ThreadPoolExecutor(JOBS) as ex:
         res = list(ex.map(_cc, jobs))
     errs = [e for rc, e in res if rc != 0]
@@ -451,7 +531,7 @@ def build_lha(ctx, sanitize=True, name="lha", extra_flags=(), wrap=()):
         return None, "\n".join(errs)[-4000:]
     exe = os.path.join(bdir, name)
     wl = ["-Wl," + ",".join("--wrap=" + w for w in wrap)] if wrap else []
-    rc, err = _cc(["clang"] + san + wl + objs + extra_objs + ["-o", exe])
+    rc, err = _cc([cc] + san + wl + objs + extra_objs + ["-o", exe])
     if rc != 0:
         return None, err[-4000:]
     return exe, ""
